@@ -22,7 +22,8 @@
 (***************************************************************************)
 EXTENDS Naturals, Sequences, FiniteSets, TLC, Json, Randomization
 
-CONSTANTS NUsers,     \* number of user subroutines
+CONSTANTS Decls,      \* kinds of unused root declarations a program may carry (post passes), e.g. {"acl", "table"}
+          NUsers,     \* number of user subroutines
           MaxEdges,   \* call statements in the whole program
           Sample      \* 0: every graph; n > 0: n random graphs (seeded)
 
@@ -32,7 +33,7 @@ Subs == Roots \cup Users
 Scopes == {"RECV", "DELIVER", "FETCH"}
 RootScope(s) == IF s = "vcl_recv" THEN {"RECV"} ELSE {"DELIVER"}
 AllEdges == Subs \X Users
-Decls == {"acl", "table", "backend", "penaltybox", "ratecounter"}       \* unused root declarations a program may carry (post passes)
+\* (the post-pass part keeps the emission ORDER in the state: 5 kinds + 3 uncalled subroutines are already 10^5 states per program)
 
 \* (operators with a parameter: TLC evaluates constant definitions without parameters eagerly, sampled runs must not pay for them)
 Graphs(k) == { E \in SUBSET AllEdges : Cardinality(E) <= k }
